@@ -621,8 +621,8 @@ def assigns_field(owner, field):
     return sp
 
 
-def derives_from_local(fn, op, local, max_nodes=200):
-    """Is `local` in the backward data-flow closure of the operand?"""
+def derives_from_local(fn, op, local, max_nodes=400, through_calls=False):
+    """Is `local` in the backward data-flow closure of the operand? (optionally through call arguments)"""
     d = C.defs(fn)
     seen = set()
     stack = list(operand_locals(op))
@@ -639,6 +639,9 @@ def derives_from_local(fn, op, local, max_nodes=200):
             if df[0] in ("=", "partial"):
                 for o in rvalue_operands(df[3]):
                     stack.extend(operand_locals(o))
+            elif through_calls and df[0] in ("call", "partial-call"):
+                for a in df[2]["args"]:
+                    stack.extend(operand_locals(a))
     return False
 
 
